@@ -10,16 +10,15 @@ from .common import scr, cursor_of
 _names = None
 
 
+_BASE = ['black', 'red', 'green', 'brown', 'blue', 'magenta', 'cyan', 'white']
+
+
 def colour_names(eng):
-    """Documented colour names: computed from the crate's own tables (graphics.rs) + 'default'."""
+    """The documented colour names (console_codes(4) / pyte's graphics tables), transcribed here
+    independently of graphics.rs so that a misspelt table entry is not taken for documented."""
     global _names
     if _names is None:
-        s = {'default'}
-        for t in ('FG_ANSI', 'BG_ANSI', 'FG_AIXTERM', 'BG_AIXTERM'):
-            m = deref_all(eng.lazy_value(t))
-            for (k, p, v) in m.e:
-                s.add(deref_all(v).py())
-        _names = s
+        _names = set(_BASE) | {'bright' + n for n in _BASE} | {'default'}
     return _names
 
 
